@@ -4,7 +4,8 @@
      function.go  Function.Eval (argument loop 118-149, `update` write-back 152-159), ListToFunc, NewFunc,
                   CompileList (placeholder 344-363), CompileArgs, EvalArg
      lambda.go    Lambda.Call (required parameters only), BoundCall, DefLambda, Lambda.Compile
-     package.go   Package.DefLambda (patches the registered Lambda in place, replaces FuncInfo.Create)
+     package.go   Package.DefLambda (patches the registered Lambda in place; the new FuncInfo.Create hands out the
+                  registered Lambda - repo_fixes/C08-3)
      code.go      Code.Compile (definitions first, then CompileList of the rest), Code.Eval
      undefined.go Undefined.Eval
      pkg/cl/defun.go, if.go, progn.go
@@ -18,7 +19,8 @@
    where the callee records what the Go object captured when it was created: the built-in, or the name and
    the *address of the Lambda* (`Self`) bound at that moment.  Lambdas live in a heap; `lambdas` is
    Package.lambdas (name -> registered Lambda, the one patched in place by later defuns), `funcs` is
-   Package.funcs restricted to user functions (name -> the Lambda address captured by FuncInfo.Create). *)
+   Package.funcs restricted to user functions (name -> the Lambda address captured by FuncInfo.Create; since
+   repo_fixes/C08-3 always the registered one, which the invariant in Proofs.v states). *)
 From Coq Require Import List ZArith Ascii String Bool Arith.
 Import ListNotations.
 Open Scope list_scope.
@@ -392,17 +394,21 @@ Fixpoint set_nth {A} (l : list A) (i : nat) (x : A) : list A :=
   | _ :: r, O => x :: r
   | y :: r, S i' => y :: set_nth r i' x
   end.
-(* Defun.Call: slip.DefLambda (new Lambda, Lambda.Compile of the body) then Package.DefLambda *)
+(* Defun.Call: slip.DefLambda (a new Lambda at address a, Lambda.Compile of the body), then Package.DefLambda:
+   a Lambda already registered for the name (an earlier definition, or the placeholder of an earlier call - also
+   of the recursive call in this very body) takes the new definition over in place and stays registered; the
+   Lambda registered after the call is the one the new creator hands out (repo_fixes/C08-3: `lc = pkg.DefLambda(..)`;
+   before that repair the creator captured the new Lambda a, which no later definition updates) *)
 Definition defunM (st : state) (name : string) (ps : list string) (body : list sexp) : state :=
   let a := List.length (heap st) in
   let newl := mkLam name ps body false in
   let st1 := mkSt (heap st ++ [newl]) (lambdas st) (funcs st) (marks st) (out st) in
   let st2 := fold_left compile_slot body st1 in
-  let '(hp, lms) := match slookup name (lambdas st2) with
-                    | Some c => (set_nth (heap st2) c newl, lambdas st2)
-                    | None => (heap st2, (name, a) :: lambdas st2)
-                    end in
-  mkSt hp lms ((name, a) :: funcs st2) (marks st2) (out st2).
+  let '(hp, lms, reg) := match slookup name (lambdas st2) with
+                         | Some c => (set_nth (heap st2) c newl, lambdas st2, c)
+                         | None => (heap st2, (name, a) :: lambdas st2, a)
+                         end in
+  mkSt hp lms ((name, reg) :: funcs st2) (marks st2) (out st2).
 
 (* ---- top level: code objects ----------------------------------------------------------------- *)
 Inductive tform := TForm (e : sexp) | TQuote (name : string).   (* Code.Compile turns a definition into (quote name) *)
